@@ -65,6 +65,7 @@ def build(spec):
     ff_inner = spec["failfast"] == "before"
     under = []
     made = []
+    siblings = []
 
     def TR():
         # "before2": only the second constituent was created with failfast
@@ -83,7 +84,15 @@ def build(spec):
     elif b == "Multi":
         r = testtools.MultiTestResult(TR(), TR())
     elif b == "TSFR":
-        r = testtools.ThreadsafeForwardingResult(TR(), threading.Semaphore(1))
+        sem = threading.Semaphore(1)
+        target = TR()
+        r = testtools.ThreadsafeForwardingResult(target, sem)
+        # what ConcurrentTestSuite builds: one forwarder per worker over the same target
+        sibling = testtools.ThreadsafeForwardingResult(target, sem)
+        sibling.startTest(H.make_test(99))
+        sibling.addSuccess(H.make_test(99))
+        sibling.stopTest(H.make_test(99))
+        siblings.append(sibling)
     elif b in ("ETOD-py26", "ETOD-py27"):
         from vp.results import Py26, Py27
         old_style = (Py26 if b == "ETOD-py26" else Py27)()
@@ -105,6 +114,7 @@ def build(spec):
             r = real.Tagger(r, {"x"}, set())
     if spec["failfast"] == "after":
         r.failfast = True
+    build.siblings = siblings
     return r, under, text
 
 
@@ -146,6 +156,9 @@ def run_case(spec):
             vs.append(V("stop", "%s-failfast=%s-%s" % (spec["base"], spec["failfast"], "early" if ss else "missing"),
                         "shouldStop is %r after %s on %s (failfast=%s, stop() called=%r, failing outcome=%r)" % (
                             ss, step, tag, spec["failfast"], stopped, bad)))
+        for sib in getattr(build, "siblings", []):
+            if bool(sib.shouldStop) != want_stop and not (bool(ss) != want_stop):
+                vs.append(V("stop", "sibling-forwarder", "a second ThreadsafeForwardingResult on the same target has shouldStop=%r, the first says %r after %s" % (sib.shouldStop, ss, step)))
         for u in ([] if direct else under):
             if bool(u.shouldStop) != want_stop and not (bool(ss) != want_stop):
                 vs.append(V("stop", "underlying-%s" % spec["base"], "an underlying result has shouldStop=%r, outer says %r after %s" % (u.shouldStop, ss, step)))
@@ -198,7 +211,8 @@ TEXT_HIST = H.s_history(max_tests=5, with_run=False, with_control=False, with_ta
 @st.composite
 def s_text(draw):
     runs = [draw(TEXT_HIST)["ops"] for _ in range(draw(st.sampled_from([1, 1, 2])))]
-    return {"runs": runs, "wraps": draw(st.lists(st.sampled_from(WRAPS), max_size=2)), "failfast": draw(st.booleans())}
+    return {"runs": runs, "wraps": draw(st.lists(st.sampled_from(WRAPS), max_size=2)), "failfast": draw(st.booleans()),
+            "id_mod": draw(st.sampled_from([99, 99, 2, 1]))}
 
 
 def run_text(spec):
@@ -223,7 +237,7 @@ def run_text(spec):
         for op in ops:
             k = op["op"]
             if k == "startTest":
-                cur = H.make_test(op["i"], "case")
+                cur = H.make_test(op["i"] % spec.get("id_mod", 99), "case")
                 driver.startTest(cur)
                 n += 1
             elif k == "outcome":
@@ -271,14 +285,22 @@ def run_text(spec):
 
 
 # ---------------------------------------------------------------- suites of real tests, runner, exit status
-KIND = st.sampled_from(["success", "success", "failure", "error", "skip", "xfail", "uxsuccess", "stop"])
+KIND = st.sampled_from(["success", "success", "failure", "error", "skip", "xfail", "uxsuccess", "stop", "subtest_fail", "subtest_ok"])
 
 
 @st.composite
 def s_suite(draw):
-    return {"tests": draw(st.lists(KIND, max_size=6)), "failfast": draw(st.booleans()),
+    spec = {"tests": draw(st.lists(KIND, max_size=6)), "failfast": draw(st.booleans()),
             "runner": draw(st.sampled_from(["suite+TestResult", "suite+Multi", "suite+TSFR", "TestToolsTestRunner", "run.main", "run.main"])),
             "wraps": draw(st.lists(st.sampled_from(WRAPS), max_size=1))}
+    if spec["runner"].startswith("suite+") and spec["wraps"]:
+        # sub-tests need a result with addSubTest at the outside (unittest probes for it); the pass-through
+        # decorators do not have one
+        spec["tests"] = [k if not k.startswith("subtest") else "success" for k in spec["tests"]]
+    return spec
+
+
+SUITE_BAD = tuple(H.BAD) + ("subtest_fail",)
 
 
 def make_tests(kinds, ran, result_holder):
@@ -286,6 +308,9 @@ def make_tests(kinds, ran, result_holder):
 
     class G(testtools.TestCase):
         pass
+
+    class S(unittest.TestCase):
+        """A plain stdlib TestCase (sub-tests are reported through the inherited addSubTest)."""
     tests = []
     for i, k in enumerate(kinds):
         def body(self, i=i, k=k):
@@ -303,8 +328,19 @@ def make_tests(kinds, ran, result_holder):
             if k == "stop":
                 result_holder[0].stop()
         name = "test_%02d_%s" % (i, k)
-        setattr(G, name, body)
-        tests.append(name)
+        if k.startswith("subtest"):
+            def sbody(self, i=i, k=k):
+                ran.append(i)
+                with self.subTest(part=1):
+                    if k == "subtest_fail":
+                        self.fail("MARK-subtest-%d" % i)
+                with self.subTest(part=2):
+                    pass
+            setattr(S, name, sbody)
+            tests.append((S, name))
+        else:
+            setattr(G, name, body)
+            tests.append((G, name))
     return G, tests
 
 
@@ -333,23 +369,35 @@ def run_suite(spec):
     want_ran = []
     for i, k in enumerate(kinds):
         want_ran.append(i)
+        if k == "stop" or (ff and k in SUITE_BAD):
+            break
+    good = not any(kinds[i] in SUITE_BAD for i in want_ran)
+    # what the run looks like if failing sub-tests are not counted at all (see known_findings.json)
+    alt_ran = []
+    for i, k in enumerate(kinds):
+        alt_ran.append(i)
         if k == "stop" or (ff and k in H.BAD):
             break
-    good = not any(kinds[i] in H.BAD for i in want_ran)
+    alt_good = not any(kinds[i] in H.BAD for i in alt_ran)
     runner = spec["runner"]
     if runner.startswith("suite+"):
         base = {"suite+TestResult": "TestResult", "suite+Multi": "Multi", "suite+TSFR": "TSFR"}[runner]
         outer, under, _ = build({"base": base, "wraps": spec["wraps"], "failfast": "after" if ff else "off"})
         holder[0] = outer
-        suite = unittest.TestSuite([G(n) for n in names])
+        suite = unittest.TestSuite([c(n) for c, n in names])
         suite.run(outer)
+        subtest_only = (not good) and not any(kinds[i] in H.BAD for i in ran)     # the only failing thing executed is a sub-test
+        if base in ("Multi", "TSFR") and subtest_only and outer.wasSuccessful() and ran in (want_ran, alt_ran):
+            vs.append(V("subtest", "not-forwarded-" + base, "a failing sub-test of a stdlib TestCase reported through %s is not counted: "
+                        "wasSuccessful() %r, tests executed %r (kinds %r, failfast %r)" % (base, outer.wasSuccessful(), ran, kinds, ff)))
+            return Case(vs, True, ["runner=" + runner, "subtest-known-finding"], {"ran": ran})
         if outer.wasSuccessful() != good:
             vs.append(V("suite", "verdict-" + base, "wasSuccessful() %r after outcomes %r" % (outer.wasSuccessful(), [kinds[i] for i in ran])))
         tag = base
     elif runner == "TestToolsTestRunner":
         out = io.StringIO()
         r = ttrun.TestToolsTestRunner(stdout=out, failfast=ff)
-        suite = unittest.TestSuite([G(n) for n in names])
+        suite = unittest.TestSuite([c(n) for c, n in names])
 
         class Spy(unittest.TestSuite):
             def run(self, result, debug=False):
@@ -369,7 +417,7 @@ def run_suite(spec):
             def run(self, result, debug=False):
                 holder[0] = result
                 return super().run(result, debug)
-        mod.test_suite = lambda: Spy([G(n) for n in names])
+        mod.test_suite = lambda: Spy([c(n) for c, n in names])
         sys.modules["vp_c04_mod"] = mod
         out = io.StringIO()
         try:
@@ -389,7 +437,7 @@ def run_suite(spec):
         tag = "main"
     if ran != want_ran:
         vs.append(V("dispatch", "%s-failfast=%s" % (tag, ff), "tests executed %r, model expects %r (kinds %r)" % (ran, want_ran, kinds)))
-    nt = len(kinds) >= 2 and any(k in H.BAD or k == "stop" for k in kinds[1:])
+    nt = len(kinds) >= 2 and any(k in SUITE_BAD or k == "stop" for k in kinds[1:])
     return Case(vs, nt, ["runner=" + runner, "failfast=%s" % ff, "good" if good else "bad"], {"ran": ran})
 
 
